@@ -37,6 +37,7 @@ StepEv(c, ev, q, tol) ==
       [] ev.ev = "hook" -> HookStep(c, ev, q, tol)
       [] ev.ev = "api"  -> ApiStep(c, ev, q)
       [] ev.ev = "get"  -> GetStep(c, ev)
+      [] ev.ev = "sp"   -> SpStep(c, ev)
       [] OTHER -> [c EXCEPT !.n = c.n + 1]
 
 Step ==
